@@ -338,6 +338,10 @@ OpOK(op, a, r) ==
           Spell.tla for the texts it spells (SpellGen); for any other text the properties only demand
           "a value in range or an error, never a panic" (C02, C03) - judged by ValueInRange / NoPanic ---- *)
   [] op \in ParseOps -> r[1] \in {0, 1}
+  \* one Formatter object, the same text parsed under clock A and then under clock B: <<result A, result B>>.
+  \* What each must be is generated by SpellGen (the denotation under that clock - a formatter has no memory).
+  [] op \in {"D.parse_reuse_at", "T.parse_reuse_at", "TS.parse_reuse_at", "YM.parse_reuse_at", "DT.parse_reuse_at",
+             "OD.parse_reuse_at"} -> r[1] = 0 /\ Len(r[2]) = 2 /\ r[2][1][1] \in {0, 1} /\ r[2][2][1] \in {0, 1}
   (* ---- serialization (C15) ---- *)
   [] op \in {"D.json", "T.json", "TS.json", "YM.json", "DT.json", "OD.json"} ->
         \* <<the text written, what that text deserializes to>>: the fixed layout, and the value again
